@@ -56,6 +56,10 @@ class RefBlock:
         self.gacc = np.zeros(self.shape) if has_gacc else None
         self.last_delta = None
         self.last_refreshed = False
+        # natural magnitudes of the operands of the last update of each quantity: the comparison scale must not be
+        # smaller than these, otherwise cancellation (e.g. momentum*M + P ~ 0 in a 1-element block) turns ordinary
+        # rounding of the operands into a huge relative error of the result
+        self.scale = {}
 
 
 def effective_group_hyper(cfg, gi):
@@ -109,6 +113,7 @@ class RefOpt:
 
     def __init__(self, cfg, params):
         self.cfg = cfg
+        self.pscale = {}  # per parameter: magnitude of the operands of the last update (see RefBlock.scale)
         self.kappa = 1.0  # largest condition number of a regularised factor matrix seen at a refresh (tolerance scaling)
         self.params = [np.array(p, dtype=np.float64) for p in params]
         shapes = [tuple(s) for s in cfg["shapes"]]
@@ -178,6 +183,7 @@ class RefOpt:
                 # filtered gradient
                 if beta1 != 0.0:
                     Gbar = beta3 * b.filt + (1.0 - beta3) * G
+                    b.scale["filt"] = float(max(np.max(np.abs(beta1 * b.filt)), np.max(np.abs((1.0 - beta1) * G))))
                     b.filt = beta1 * b.filt + (1.0 - beta1) * G
                     if h["bias_corr"]:
                         Gbar = Gbar / (1.0 - beta3 * beta1 ** (t - 1))
@@ -208,9 +214,11 @@ class RefOpt:
                 if wd != 0.0 and h["decoupled"]:
                     P = P + wd * W
                 if h["momentum"] != 0.0:
+                    b.scale["mom"] = float(max(np.max(np.abs(h["momentum"] * b.mom)), np.max(np.abs((1.0 - h["dampening"]) * P))))
                     b.mom = h["momentum"] * b.mom + (1.0 - h["dampening"]) * P
                     P = (1.0 - h["dampening"]) * P + h["momentum"] * b.mom if h["nesterov"] else b.mom.copy()
                 delta = -lr * P
                 b.last_delta = delta
+                self.pscale[b.pidx] = max(self.pscale.get(b.pidx, 0.0), float(np.max(np.abs(W))), float(np.max(np.abs(delta))))
                 flat = self.params[b.pidx].reshape(-1)
                 flat[b.idx] = W + delta
